@@ -43,7 +43,7 @@ def log(*a):
 
 def run(cmd, cwd=None, timeout=None, env=None, stdin=None, stdout=subprocess.PIPE):
     return subprocess.run(cmd, cwd=cwd, timeout=timeout, env=env or ENV, stdin=stdin,
-                          stdout=stdout, stderr=subprocess.STDOUT, text=True)
+                          stdout=stdout, stderr=subprocess.STDOUT, text=True, errors="replace")
 
 
 class Lock:
